@@ -111,8 +111,12 @@ func vfC30Persisted() (map[string]string, bool) {
 //vf:nonative
 func VfC30_Edit() {
 	vfSent = nil
-	old := vfC30Old()
-	a, i := vfC30Agent(old)
+	live := vfC30Old()
+	old := map[string]string{} // snapshot: the live map must not be edited in place
+	for k, v := range live {
+		old[k] = v
+	}
+	a, i := vfC30Agent(live)
 	vfMlFaults()
 	req := vfC30Request()
 	vfQueueDecode(req)
